@@ -109,6 +109,17 @@ CHECKS["C10"] = dict(
          "responses are delivered in order at the executor's wait points (other arrival orders: C12). `int` of build_epr is stubbed.",
     design="3/C10")
 
+CHECKS["C11"] = dict(
+    engine="symx",
+    technique="SMT (z3 LIA): symbolic execution of the real EPRSocket API, Builder, assembler and Executor request/response paths with symbolic parameters and response fields",
+    text="Request direction: every public create entry point with symbolic time limit (0..2^31-1) and rotation triples (0..31), every "
+         "TimeUnit, every pair of named bases and of RandomBasis members; z3 decides on every path that each field of the request that "
+         "reaches the network stack equals the call's parameter (defaults where the API has none), that enum-typed fields are enum "
+         "members and that request_to_qlink_1_0 succeeds with equal fields. Result direction: responses with symbolic create id, sequence "
+         "number, goodness, time, Bell state, outcome, basis; every field of every result handle of pair i equals pair i's response.",
+    note="Trusted: z3; RecStack/NetExecutor harness (in-order delivery). Pair counts 1..2 (thorough 1..3). Error responses outside.",
+    design="3/C11")
+
 NOT_YET = "check not built yet in this revision (work in progress; see DESIGN.md section 3 for the planned solver-based check)"
 NOT_APPLICABLE = {}
 
